@@ -5,10 +5,12 @@ SPEC = {
     "targets": ["Properties/C10.vo", "Run/C10.vo"],
     "theorems": {"Properties.C10": ["C10_spec_noninterference", "C10_spec_noninterference_eq", "C10_spec_insert_shift", "C10_spec_insert_shift_files", "C10_spec_steps_is_spec",
                                     "C10_impl_refines_spec_partial", "C10_known_class_within_guard", "C10_impl_refines_spec_refuted", "C10_impl_refines_spec_refuted_channels",
-                                    "C10_impl_noninterference_partial", "C10_nonvacuous", "C10_tables_match_source", "C10_pipeline_factors"]},
+                                    "C10_impl_noninterference_partial", "C10_nonvacuous", "C10_tables_match_source", "C10_pipeline_factors", "C10_pipeline_factors_yaml"]},
     "harness_args": lambda tier: (["C10", "--n", 200, "--exh", 3, "--coresample", 150, "--pairs", 8, "--oracle", 240] if tier == "quick"
                                   else ["C10", "--n", 5000, "--exh", 4, "--coresample", 8000, "--pairs", 1, "--oracle", 4000]),
-    "search_args": lambda tier: ["C10", "--n", 150, "--exh", 2, "--pairs", 40, "--oracle", 2500],
+    # search mode (something broke, no failing input yet; run on up to three more seeds): oracle-heavy, few model cases,
+    # sized so that one seed takes ~1 min (a failing run must end within ~5 min)
+    "search_args": lambda tier: ["C10", "--n", 40, "--exh", 1, "--pairs", 5, "--oracle", 800],
     "level": "proof",
     "trusted_base": [
         "Coq 8.16.1 kernel + VM (vm_compute); no axioms (Print Assumptions: closed under the global context for every listed theorem)",
@@ -63,12 +65,14 @@ MANIFEST = {
             "(exact guard), the full refinement is refuted by four machine-checked witnesses that also fail on the real code (known finding); "
             "outside that class nothing downstream of the reader can change. Tied to the source every run by an AST translator (comment tables, "
             "per-type reader switch), byte-level differential execution of the real reader (exhaustive short files + alphabet pairs + random) and "
-            "a two-run relational oracle on the real parser and pint binary (payload replacement, block insertion). Three genuine defects are "
-            "registered as known findings with class predicates (control comment in excluded text; directive column; length inside a block "
-            "scalar); a known-class failure that the reader model does not explain is still reported as a violation.",
+            "a two-run relational oracle on the real parser and pint binary (payload replacement, block insertion). The bytes handed to "
+            "yaml (CR LF -> LF since fix 670b316) are modelled as r_yaml, a function of the masked bytes. Four genuine defects are "
+            "registered as known findings with class predicates (control comment in excluded text; directive column next to a comment; "
+            "length inside a block scalar; excluded line of >= 511 bytes vs yaml.v3's comment lookahead); a known-class failure that the reader model does not explain is still reported as a violation.",
     "note": "Coq kernel+VM, no axioms; translator and harness trusted for extraction/serialisation; comments.go/read.go hand-modelled and "
             "validated by correspondence, not verified from Go source; yaml.v3/rule parser/checks only exercised by the oracle; unicode.L table "
-            "static; time.Parse is an input; known findings C10-control-comment-in-excluded-text, C10-directive-column, C10-length-in-block-scalar.",
+            "static; time.Parse is an input; known findings C10-control-comment-in-excluded-text, C10-directive-column, C10-length-in-block-scalar, "
+            "C10-long-blanked-line.",
     "technique": "Coq refinement (implementation state machine vs documented-meaning state machine) + non-interference/insert-shift theorems + "
                  "AST-generated tables + byte-level differential correspondence + two-run relational oracle",
 }
